@@ -927,7 +927,7 @@ theorem transposeOp_block_forms (E : Env) (u : Nat) (k : ContCls) (td : TreeDef)
     simpa only [EnvSymOn, AllLeaves] using hS
   exact ⟨ts, rfl, hts, tAtList E ops ts hS' hoks hf' hw' hts⟩
 
-/-- **C10, transposes, closed**: for a well-formed block row `R` without dense leaves, `R.T` (the form the model
+/-- **C10, transposes, closed**: for a well-formed block row `R` whose dense leaves have a shared block array, `R.T` (the form the model
 computes) is a block column `.cont 0 .blockCol td ts` whose dense matrix is the vertical stacking of the matrices
 of the transposes of the blocks of `R` -/
 theorem asMatrix_transposeOp_blockRow (E : Env) (hE : EnvAdd E) (u : Nat) (td : TreeDef) (ops : List Op) (t : Op)
